@@ -12,6 +12,7 @@
                                              seedBrokers[0] - the identity check -, a seed that
                                              is not the head is left alone (delete of id -1),
                                              a registered broker is deleted by id
+     (Broker.Open's window, the connection state and Close are modelled too: see PickOn)
      Resurrect(r)  any() returned nil: seedBrokers = seedBrokers ++ deadSeeds; one retry if
                    the caller has attempts left, else ErrOutOfBrokers
 
@@ -37,9 +38,14 @@ EPSeq == <<"s1", "s2", "b1a", "b1b", "b2a", "b3a">>
 Holdable == {"close", "garbage", "corrid", "trailing"}   \* failures that arrive as an answer on the connection
 Range(s) == {s[k] : k \in DOMAIN s}
 
-VARIABLES seeds, dead, brokers, pc, cur, att, res, anyUp, beh, req, created, hist
-vars == <<seeds, dead, brokers, pc, cur, att, res, anyUp, beh, req, created, hist>>
+VARIABLES seeds, dead, brokers, pc, cur, att, res, anyUp, beh, req, created, hist,
+          win,      \* candidate -> the caller that is inside Broker.Open's window on it (0: nobody)
+          isopen,   \* candidates whose Broker has an established connection
+          raced     \* ghost: caller -> it got ErrNotConnected from a candidate that answers (this round)
+vars == <<seeds, dead, brokers, pc, cur, att, res, anyUp, beh, req, created, hist, win, isopen, raced>>
 down == DOMAIN beh
+EPs == Seeds \cup WB
+NoWindow == \A e \in EPs : win[e] = 0      \* nobody is inside any() (holding client.lock.RLock)
 
 \* the fixed cluster, in the JSON shape of Metadata!WorldJson(W0)
 W0Json == [brokers |-> << <<1, "b1a">>, <<2, "b2a">> >>, ctrl |-> 1,
@@ -60,6 +66,7 @@ Init ==
   /\ cur = [r \in Refs |-> ""] /\ att = [r \in Refs |-> RetryMax]
   /\ res = [r \in Refs |-> "none"] /\ anyUp = [r \in Refs |-> r = 1]
   /\ beh = NoBeh /\ req = <<>> /\ created = FALSE
+  /\ win = [e \in EPs |-> 0] /\ isopen = {} /\ raced = [r \in Refs |-> FALSE]
   /\ hist = << <<"create", <<>>, NoBeh, "">> >>
 
 Begin ==
@@ -72,54 +79,91 @@ Begin ==
                                    \/ (RetryMax > 0 /\ Range(dead) \ DOMAIN b # {})]
        /\ hist' = Append(hist, <<"same", rq, b, IF seeds = <<>> THEN "" ELSE Head(seeds)>>)
   /\ pc' = [r \in Refs |-> "pick"] /\ att' = [r \in Refs |-> RetryMax] /\ res' = [r \in Refs |-> "none"]
-  /\ UNCHANGED <<seeds, dead, brokers, cur, created>>
+  /\ raced' = [r \in Refs |-> FALSE]
+  /\ UNCHANGED <<seeds, dead, brokers, cur, created, win, isopen>>
 
+(* any(): under client.lock.RLock pick the head seed, else SOME registered broker, and call Open on it.
+   Broker.Open AS IT IS publishes opened=1 (CompareAndSwap) BEFORE it takes b.lock (conf.Validate()
+   runs in between): the caller that wins the CompareAndSwap is "in the window" until OpenDone; every
+   other caller that picks the same Broker meanwhile gets ErrAlreadyConnected, which any() ignores.   *)
+PickOn(r, e) ==
+  /\ cur' = [cur EXCEPT ![r] = e]
+  /\ IF e \notin isopen /\ win[e] = 0
+     THEN win' = [win EXCEPT ![e] = r] /\ pc' = [pc EXCEPT ![r] = "open"]
+     ELSE UNCHANGED win /\ pc' = [pc EXCEPT ![r] = "wait"]
 Pick(r) ==
   /\ pc[r] = "pick"
-  /\ \/ /\ seeds # <<>>
-        /\ cur' = [cur EXCEPT ![r] = Head(seeds)] /\ pc' = [pc EXCEPT ![r] = "wait"]
-     \/ /\ seeds = <<>> /\ \E e \in brokers : cur' = [cur EXCEPT ![r] = e]
-        /\ pc' = [pc EXCEPT ![r] = "wait"]
+  /\ \/ seeds # <<>> /\ PickOn(r, Head(seeds))
+     \/ seeds = <<>> /\ \E e \in brokers : PickOn(r, e)
      \/ /\ seeds = <<>> /\ brokers = {}
-        /\ pc' = [pc EXCEPT ![r] = "res"] /\ UNCHANGED cur
-  /\ UNCHANGED <<seeds, dead, brokers, att, res, anyUp, beh, req, created, hist>>
+        /\ pc' = [pc EXCEPT ![r] = "res"] /\ UNCHANGED <<cur, win>>
+  /\ UNCHANGED <<seeds, dead, brokers, att, res, anyUp, beh, req, created, hist, isopen, raced>>
 
+\* the opener takes b.lock and dials (the lock is held until the connection stands); any() returns
+OpenDone(r) ==
+  /\ pc[r] = "open"
+  /\ win' = [win EXCEPT ![cur[r]] = 0] /\ isopen' = isopen \cup {cur[r]}
+  /\ pc' = [pc EXCEPT ![r] = "wait"]
+  /\ UNCHANGED <<seeds, dead, brokers, cur, att, res, anyUp, beh, req, created, hist, raced>>
+
+\* broker.GetMetadata(req)
 Outcome(r) ==
   /\ pc[r] = "wait"
-  /\ IF cur[r] \in down
-     THEN \* deregisterBroker(cur[r]) as it is
-          /\ IF cur[r] \in Seeds
-             THEN IF seeds # <<>> /\ Head(seeds) = cur[r]                      \* broker == client.seedBrokers[0]
-                  THEN seeds' = Tail(seeds) /\ dead' = Append(dead, cur[r]) /\ UNCHANGED brokers
-                  ELSE UNCHANGED <<seeds, dead, brokers>>                      \* delete(client.brokers, -1)
-             ELSE brokers' = brokers \ {cur[r]} /\ UNCHANGED <<seeds, dead>>   \* delete(client.brokers, id)
-          /\ pc' = [pc EXCEPT ![r] = "pick"]
-          /\ UNCHANGED <<res, created>>
-     ELSE \* updateMetadata -> updateBroker: exactly the response's brokers
+  /\ LET e == cur[r] IN
+     IF win[e] # 0 \/ e \notin isopen
+     THEN \* b.conn == nil: another caller is still inside the window (or closed the connection under us):
+          \* ErrNotConnected, taken for a failed candidate like any other error
+          /\ pc' = [pc EXCEPT ![r] = "fail"]
+          /\ raced' = [raced EXCEPT ![r] = @ \/ e \notin down]
+          /\ UNCHANGED <<brokers, res, created>>
+     ELSE IF e \in down
+     THEN /\ pc' = [pc EXCEPT ![r] = "fail"] /\ UNCHANGED <<brokers, res, created, raced>>
+     ELSE \* updateMetadata (write lock) -> updateBroker: exactly the response's brokers
+          /\ NoWindow
           /\ brokers' = WB
           /\ pc' = [pc EXCEPT ![r] = "idle"] /\ res' = [res EXCEPT ![r] = "none"]
-          /\ created' = TRUE
-          /\ UNCHANGED <<seeds, dead>>
-  /\ UNCHANGED <<cur, att, anyUp, beh, req, hist>>
+          /\ created' = TRUE /\ UNCHANGED raced
+  /\ UNCHANGED <<seeds, dead, cur, att, anyUp, beh, req, hist, win, isopen>>
+
+\* _ = broker.Close(): closes the connection if there is one (also one another caller has just opened)
+CloseFailed(r) ==
+  /\ pc[r] = "fail"
+  /\ isopen' = IF win[cur[r]] = 0 THEN isopen \ {cur[r]} ELSE isopen
+  /\ pc' = [pc EXCEPT ![r] = "dereg"]
+  /\ UNCHANGED <<seeds, dead, brokers, cur, att, res, anyUp, beh, req, created, hist, win, raced>>
+
+\* deregisterBroker(cur[r]) as it is (write lock)
+Dereg(r) ==
+  /\ pc[r] = "dereg" /\ NoWindow
+  /\ IF cur[r] \in Seeds
+     THEN IF seeds # <<>> /\ Head(seeds) = cur[r]                      \* broker == client.seedBrokers[0]
+          THEN seeds' = Tail(seeds) /\ dead' = Append(dead, cur[r]) /\ UNCHANGED brokers
+          ELSE UNCHANGED <<seeds, dead, brokers>>                      \* delete(client.brokers, -1)
+     ELSE brokers' = brokers \ {cur[r]} /\ UNCHANGED <<seeds, dead>>   \* delete(client.brokers, id)
+  /\ pc' = [pc EXCEPT ![r] = "pick"]
+  /\ UNCHANGED <<cur, att, res, anyUp, beh, req, created, hist, win, isopen, raced>>
 
 Resurrect(r) ==
-  /\ pc[r] = "res"
+  /\ pc[r] = "res" /\ NoWindow
   /\ seeds' = seeds \o dead /\ dead' = <<>>
   /\ IF att[r] > 0
      THEN att' = [att EXCEPT ![r] = @ - 1] /\ pc' = [pc EXCEPT ![r] = "pick"] /\ UNCHANGED res
      ELSE pc' = [pc EXCEPT ![r] = "idle"] /\ res' = [res EXCEPT ![r] = "oob"] /\ UNCHANGED att
-  /\ UNCHANGED <<brokers, cur, anyUp, beh, req, created, hist>>
+  /\ UNCHANGED <<brokers, cur, anyUp, beh, req, created, hist, win, isopen, raced>>
 
-Next == Begin \/ \E r \in Refs : Pick(r) \/ Outcome(r) \/ Resurrect(r)
+Next == Begin \/ \E r \in Refs : Pick(r) \/ OpenDone(r) \/ Outcome(r) \/ CloseFailed(r) \/ Dereg(r) \/ Resurrect(r)
 Spec == Init /\ [][Next]_vars
 
 TypeOK == /\ Range(seeds) \cap Range(dead) = {} /\ Range(seeds) \cup Range(dead) = Seeds
           /\ Len(seeds) + Len(dead) = 2
           /\ brokers \subseteq WB
-\* refresh_succeeds_if_any_answers, per caller
-RefreshSucceeds == \A r \in Refs : (pc[r] = "idle" /\ anyUp[r]) => res[r] # "oob"
+\* refresh_succeeds_if_any_answers, per caller - as the statement has it. The code as it is VIOLATES it
+\* (known finding F-C15-open-window: cfg MetadataRefreshers.finding.cfg expects this violation)
+RefreshSucceedsStrict == \A r \in Refs : (pc[r] = "idle" /\ anyUp[r]) => res[r] # "oob"
+\* ... and holds in every round in which no caller ran into the Open window
+RefreshSucceeds == (\A r \in Refs : ~raced[r]) => RefreshSucceedsStrict
 
-MCView == <<seeds, dead, brokers, pc, cur, att, res, anyUp, down, req, created, Len(hist)>>
+MCView == <<seeds, dead, brokers, pc, cur, att, res, anyUp, down, req, created, Len(hist), win, isopen, raced>>
 \* role 2: one JSON case per choice of Begin (the rounds are what the harness replays; the interleavings
 \* are the real client's). Generation stops right after the last Begin (CONSTRAINT GenBound).
 Chosen == Len(hist) = MaxSteps + 1 /\ \A r \in Refs : pc[r] = "pick" /\ att[r] = RetryMax /\ res[r] = "none"
